@@ -122,7 +122,7 @@ def _gen_query(rng, backend, wire=None):
             "md_names": names, "md": md, "wire": wire or q["wire"]}
 
 
-def _query(rng, backend, name=None, md_rate=0.5, foreign_rate=0.05, wire=None, ld=False, omit_needs=0.12):
+def _query(rng, backend, name=None, md_rate=0.5, foreign_rate=0.05, wire=None, ld=False, omit_needs=0.12, md_at_end=False):
     qs = pools.QUERIES[backend]
     if name is None:
         name, steps = qs[rng.randrange(len(qs))]
@@ -144,6 +144,10 @@ def _query(rng, backend, name=None, md_rate=0.5, foreign_rate=0.05, wire=None, l
         mds.append(fo[rng.randrange(len(fo))])
     rng.shuffle(mds)
     md = [[rng.randrange(len(steps) + 1) if steps[-1][0] != "AsROOTTTree" else rng.randrange(len(steps)), m] for m in mds]
+    if md_at_end:
+        # all metadata attached after the last operator: two queries that differ only in their metadata then share
+        # every node of the query proper when they are built from a common base
+        md = [[len(steps) if steps[-1][0] != "AsROOTTTree" else len(steps) - 1, m] for _, m in md]
     return {"name": name, "backend": backend, "steps": steps, "md_names": [m for _, m in md],
             "md": [[p, pools.METADATA[m][0]] for p, m in md],
             "wire": wire or ("qastle" if rng.random() < 0.3 else "ast")}
@@ -180,12 +184,23 @@ def make_case(prop, tier, seed, i):
         "p_mismatch": rng.choice([0.0, 0.05]),
         "p_share": rng.choice([0.0, 0.0, 0.5, 1.0]),
         "p_gen": rng.choice([0.0, 0.0, 0.4, 0.8]),
+        "omit_needs": rng.choice([0.12, 0.12, 0.4]),
+        "focus": None,
         "hot": None,
     }
     # bias: a 'hot' sub-pool of few queries so that polluter and probe touch the same methods
     if rng.random() < 0.6:
         cfg["hot"] = {b: [pools.QUERIES[b][rng.randrange(len(pools.QUERIES[b]))][0] for _ in range(rng.choice([2, 3, 5]))]
                       for b in backends}
+    # bias: a 'focused' history keeps translating ONE query (one that needs declarations) with varying declarations -
+    # present, omitted, or an alternative - built on shared streams: the setting in which a stale cached representation shows
+    if rng.random() < 0.15:
+        fb = rng.choice(backends)
+        cands = [nm for nm, _ in pools.QUERIES[fb] if nm in pools.NEEDS]
+        if cands:
+            cfg["focus"] = [fb, rng.choice(cands)]
+            cfg["p_share"] = rng.choice([0.5, 1.0])
+            cfg["p_gen"] = 0.0
     n = weighted(rng, [(1, 1), (2, 3), (3, 4), (4, 4), (6, 3), (9, 2), (12, 1)])
     ops = []
     slots = {}
@@ -214,10 +229,29 @@ def make_case(prop, tier, seed, i):
         name = None
         if cfg["hot"] and qb in cfg["hot"] and rng.random() < 0.8:
             name = rng.choice(cfg["hot"][qb])
-        if cfg["p_gen"] and name is None and rng.random() < cfg["p_gen"]:
+        if cfg["focus"] and rng.random() < 0.85:
+            qb, fname = cfg["focus"]
+            if slot is not None and slots[slot] != qb:
+                slot = None
+            eb = qb
+            q = _query(rng, qb, name=fname, md_rate=0.0, foreign_rate=0.0, ld=ld, omit_needs=0.0, md_at_end=rng.random() < 0.7)
+            # vary the declarations: keep / omit / alternative
+            pairs = []
+            for (pos, _), m in zip(q["md"], q["md_names"]):
+                r3 = rng.random()
+                if r3 < 0.25:
+                    continue
+                if r3 < 0.5 and m in pools.VARIANTS:
+                    m = rng.choice(pools.VARIANTS[m])
+                pairs.append((pos, m))
+            q["md_names"] = [m for _, m in pairs]
+            q["md"] = [[p_, pools.METADATA[m][0]] for p_, m in pairs]
+            q["wire"] = "ast"
+        elif cfg["p_gen"] and name is None and rng.random() < cfg["p_gen"]:
             q = _gen_query(rng, qb)
         else:
-            q = _query(rng, qb, name=name, md_rate=cfg["md_rate"], ld=ld)
+            q = _query(rng, qb, name=name, md_rate=cfg["md_rate"], ld=ld, omit_needs=cfg["omit_needs"],
+                       md_at_end=cfg["p_share"] > 0 and rng.random() < 0.5)
         op = {"op": "translate", "slot": slot, "backend": eb, "query": q, "ld": ld, "fault": None,
               "share": rng.random() < cfg["p_share"]}
         if not last and rng.random() < cfg["p_fault"]:
